@@ -766,6 +766,7 @@ class Interp:
     def eval_fstring(self, x, env, g, fn):
         parts = []
         opaque = False
+        symbolic_ints = False
         for v in x.values:
             if isinstance(v, ast.Constant):
                 parts.append(str(v.value))
@@ -774,6 +775,10 @@ class Interp:
                 val = self.eval(v.value, env, g, fn)
             except Undecided:
                 val = Opaque("fmt")
+            if isinstance(val, SInt) and v.conversion == -1 and v.format_spec is None:
+                parts.append(val)
+                symbolic_ints = True
+                continue
             if not ops.deep_concrete(val):
                 opaque = True
                 continue
@@ -789,6 +794,9 @@ class Interp:
                 opaque = True
         if opaque:
             return Opaque("fstring")
+        if symbolic_ints:
+            from .core import SFmt
+            return SFmt(parts)
         return "".join(parts)
 
     def eval_comp(self, x, env, g, fn):
